@@ -100,6 +100,17 @@ func (p Path) local() string {
 	return "ex." + strings.TrimPrefix(*p.P, NS)
 }
 
+// pathWhitespace: when set, the optional whitespace around `/` and `|` in rendered paths is drawn from it (blank, tab, line
+// break, several blanks) instead of being one blank; the path means the same
+var pathWhitespace func() string
+
+func pathSep(op string) string {
+	if pathWhitespace == nil {
+		return " " + op + " "
+	}
+	return pathWhitespace() + op + pathWhitespace()
+}
+
 // Render as the profile language writes it. top=true: no parentheses needed.
 // `|` binds tighter than `/`.
 func (p Path) Render() string { return p.render(0) }
@@ -118,7 +129,7 @@ func (p Path) render(ctx int) string {
 		for _, x := range p.Seq {
 			parts = append(parts, x.render(1))
 		}
-		s := strings.Join(parts, " / ")
+		s := strings.Join(parts, pathSep("/"))
 		if ctx != 0 {
 			return "(" + s + ")"
 		}
@@ -128,7 +139,7 @@ func (p Path) render(ctx int) string {
 		for _, x := range p.Alt {
 			parts = append(parts, x.render(2))
 		}
-		s := strings.Join(parts, " | ")
+		s := strings.Join(parts, pathSep("|"))
 		if ctx == 2 {
 			return "(" + s + ")"
 		}
